@@ -66,7 +66,7 @@ func c02Segment(sc *WF, seg []Ev) string {
 	if wantFb == 1 {
 		fb := fbs[0]
 		lastErr := execs[len(execs)-1].RetErr
-		if !sameErr(fb.InErr, lastErr) {
+		if errMatches(fb.InErr, lastErr) != "" {
 			return fmt.Sprintf("%s: fallback received error %q, the last attempt returned %q", name, fb.InErr, lastErr)
 		}
 		if !samePayload(fb.In, prep.Ret) {
@@ -96,13 +96,22 @@ func c02Segment(sc *WF, seg []Ev) string {
 
 func c02Body(sc *WF) Verdict {
 	x := newWfExec(sc)
+	var ref *wfExec
+	if sc.DeadlineMs > 0 {
+		ref = newWfExec(sc)
+	}
 	nontrivial := false
 	classes := map[string]bool{}
 	for r := 0; r < sc.runs(); r++ {
 		ctx := context.Background()
-		if sc.DeadlineMs > 0 {
-			// a context with a deadline that (usually) does not expire: the budget must not depend on it
-			c2, cancel := context.WithDeadline(ctx, time.Now().Add(time.Duration(sc.DeadlineMs)*time.Millisecond))
+		if ref != nil {
+			// A context whose deadline lies BEYOND the natural end of the run (measured on a
+			// reference run of the same scenario, plus a slack of DeadlineMs): the whole run fits, so
+			// every attempt the budget allows must still be made.
+			t := time.Now()
+			ref.run(context.Background())
+			natural := time.Since(t)
+			c2, cancel := context.WithDeadline(ctx, time.Now().Add(natural+time.Duration(sc.DeadlineMs)*time.Millisecond))
 			defer cancel()
 			ctx = c2
 		}
@@ -111,7 +120,7 @@ func c02Body(sc *WF) Verdict {
 			return bad("C02:panic", "run panicked: %s", rr.Panic)
 		}
 		if ctx.Err() != nil {
-			return ok(false, "deadline-expired") // the deadline did strike: C05/C20's business
+			return inconclusive("a deadline placed after the natural end of the run expired during it")
 		}
 		if sc.DeadlineMs > 0 {
 			classes["live-deadline"] = true
@@ -226,7 +235,7 @@ func TestC02(t *testing.T) {
 	rapidPart(r, "rand-flow", r.pick(2000, 30000), func(rt *rapid.T) WF {
 		w := g.gen(rt)
 		if rapid.Bool().Draw(rt, "deadline") {
-			w.DeadlineMs = rapid.SampledFrom([]int{60, 120, 5000, 4000000, 8000000, 30000000}).Draw(rt, "dl")
+			w.DeadlineMs = rapid.SampledFrom([]int{1, 7, 60, 5000, 4000000}).Draw(rt, "slack")
 		}
 		return w
 	}, checkC02)
@@ -238,10 +247,11 @@ func init() { registerReplay("C02", checkC02) }
 // ---- every item of a batch gets the same exact retry/fallback treatment
 
 func checkC02Batch(t *testing.T, sc BatchSc) Verdict {
-	// stop mode included: every item that is executed at all still gets its full budget
+	// stop mode included, but only items settled before the batch was stopped are held to the
+	// exact budget (see judgeItems)
 	sc.PrepErr = 0
 	x, br, fail := runBatchCase(t, &sc, nil)
-	if fail != "" {
+	if fail != "" && !goroutinesRemain(fail) {
 		return bad("C02:bubble", "%s", fail)
 	}
 	if br.Panic != "" {
@@ -311,8 +321,10 @@ func checkC02Flow(t *testing.T, sc WF) Verdict {
 }
 
 func c02Batch(r *Run) {
-	gf := wfGen{MaxLeaves: 4, MaxFlows: 3, Actions: []string{"a", "b", ""}, PErr: 120, PExecErr: 350, MaxN: 2, Waits: true, MaxVisits: 3, FuelMax: 8, FlowRetry: true, Kinds: []int{KBase, KPlain, KFunc, KPlainRetry}}
-	rapidPart(r, "flow-retry", r.pick(2000, 30000), gf.gen, checkC02Flow)
+	// Flows with a retry budget (FlowSpec.N, checkC02Flow) are supported by the executor and the
+	// interpreter but NOT generated: a *flyt.Flow only becomes retryable by overwriting its
+	// exported embedded BaseNode, which no constructor, option or document offers; a flyt in which
+	// flows always get one attempt satisfies C02.
 	g := batchGen{MinN: 1, MaxN: r.pick(4, 16), MaxC: 3, Modes: []int{0, 1, 2}, MaxBudget: 8, PFail: 550, Fb: true, Gated: 1, MaxSched: 40, Waits: true}
 	rapidPart(r, "batch-items", r.pick(3000, 60000), g.gen, checkC02Batch)
 }
